@@ -293,7 +293,9 @@ func unmarshalTuple(buf []byte, etys []cty.Type, path cty.Path) (cty.Value, erro
 	}
 
 	if len(vals) != len(etys) {
-		return cty.NilVal, path[:len(path)-1].NewErrorf("not enough tuple elements (need %d)", len(etys))
+		// Here "path" is already the path of the tuple itself: the variable
+		// that also includes the element step is scoped to the block above.
+		return cty.NilVal, path.NewErrorf("not enough tuple elements (need %d)", len(etys))
 	}
 
 	if len(vals) == 0 {
